@@ -27,7 +27,7 @@ Separate Extraction
   Compact.compact_range Compact.compact_table Compact.stack_refs Compact.stack_logs Compact.keep_log
   StackSeq.stack_add StackSeq.stack_addition StackSeq.stack_compact StackSeq.stack_compact_all StackSeq.stack_auto StackSeq.decode_table
   Overlay.merge2 Overlay.live
-  SpecDecoder.spec_decode
+  SpecDecoder.spec_decode SpecDecoder.spec_aligned SpecDecoder.parse_blocks
   StackProto.trace_of
   StackTrace.c04_ok StackTrace.c05_ok StackTrace.c06_ok StackTrace.c08_ok StackTrace.c09_ok StackTrace.c09_ok_gc StackTrace.c10_ok StackTrace.c16_ok
   Reader.rd_open Reader.scan_refs Reader.scan_logs Reader.seek_ref Reader.seek_log Reader.refs_for Reader.read_ref Reader.read_log_at.
